@@ -28,7 +28,7 @@ func lookupIntrinsic(fn *ssa.Function) intrinsicFn {
 			return f
 		}
 	}
-	if strings.HasSuffix(name, "zzverifrt."+fn.Name()) && fn.Pkg != nil {
+	if fn.Pkg != nil && fn.Pkg.Pkg.Name() == "zzverifrt" {
 		if f, ok := intrinsics["zzrt."+fn.Name()]; ok {
 			return f
 		}
@@ -522,6 +522,8 @@ func init() {
 	reg("errors.Is", func(e *Engine, fr *frame, args []V) V { return vBool(e.errorsIs(fr, args[0], args[1])) })
 	reg("errors.As", func(e *Engine, fr *frame, args []V) V { return vBool(e.errorsAs(fr, args[0], args[1])) })
 
+	reg("(runtime.errorString).Error", func(e *Engine, fr *frame, args []V) V { return args[0] })
+	reg("(runtime.errorString).RuntimeError", noop)
 	// -----------------------------------------------------------------------------------------
 	// os / runtime / time / log
 	reg("os.Exit", func(e *Engine, fr *frame, args []V) V {
